@@ -72,6 +72,9 @@ class Check(object):
         for k, v in res.coverage.items():
             old = self.actions.get(k, 0)
             self.actions[k] = old + v[1]
+        never = sorted(k for k, v in res.coverage.items() if v[1] == 0)
+        if never:
+            self.extra.setdefault('actions_never_taken', {})[label] = never
 
     def case(self, key, nontrivial=True, sample=None):
         """Count one evaluated case; key identifies it for distinctness."""
